@@ -7,7 +7,8 @@ From LV Require Import Base Value Stack Filters_math Filters_html Filters_seq Ev
   EvalInd EvalProofs ShapeProofs FindProofs HtmlProofs.
 
 Definition allowed (n : N) : Prop := n = site_sort_unspecified \/ n = 303%N \/ n = 304%N.
-Definition rsafe {A} (r : res A) : Prop := match r with Panic n => allowed n | _ => True end.
+(* values computed by expressions and filters can only hit the sort site; the two from_utf8 sites belong to blocks *)
+Definition rsafe {A} (r : res A) : Prop := match r with Panic n => n = site_sort_unspecified | _ => True end.
 Definition osafe (o : ores) : Prop := match o with OPanicked n => allowed n | _ => True end.
 (* the runtime a render starts from has a global layer and a counter layer; no construct removes them *)
 Definition okst (s : est) : Prop := wfr s /\ has_global (fr s) = true /\ has_index (fr s) = true.
@@ -38,7 +39,7 @@ Definition post (st : est) (x : out) : Prop := match x with (o, s', _) => esim s
 Lemma post_here st o k : osafe o -> post st (o, st, k).
 Proof. intro H. split; [apply esim_refl|exact H]. Qed.
 Lemma post_of_res {A} (r : res A) st k f : rsafe r -> (forall a, r = Ok a -> post st (f a)) -> post st (of_res r st k f).
-Proof. intros Hr Hf. destruct r; cbn [of_res]; [apply Hf; reflexivity| | |]; apply post_here; try exact I. exact Hr. Qed.
+Proof. intros Hr Hf. destruct r; cbn [of_res]; [apply Hf; reflexivity| | |]; apply post_here; try exact I. left. exact Hr. Qed.
 Lemma post_write st k t : post st (write_str st k t).
 Proof. destruct (write_str_cases st k t) as [k' [E|E]]; rewrite E; apply post_here; exact I. Qed.
 Lemma post_trans st s1 (x : out) : esim st s1 -> post s1 x -> post st x.
@@ -163,7 +164,7 @@ Qed.
 Lemma html_filter_np f v : not_panic (html_filter O f v) = true.
 Proof. destruct (html_filter_total O f v) as [[r E]|[c E]]; rewrite E; reflexivity. Qed.
 Lemma sort_by_safe {A} (cmp : A -> A -> comparison) l : rsafe (sort_by cmp l).
-Proof. unfold sort_by. destruct (total_preorder_on cmp l); [exact I|left; reflexivity]. Qed.
+Proof. unfold sort_by. destruct (total_preorder_on cmp l); [exact I|reflexivity]. Qed.
 Lemma arg_int_np v : not_panic (arg_int v) = true.
 Proof. unfold arg_int. repeat (dm; try reflexivity). Qed.
 Lemma opt_int_safe d a : rsafe (opt_int d a).
